@@ -24,6 +24,11 @@ pub enum Impostor {
     PskLength(bool),
     /// PSK possession: a completely different psk
     PskOther,
+    /// a transcript computed by the reference model from public values and an ephemeral key only:
+    /// `term` is what stands in for DH(skS, pkR) (see `hpke_ref::forged_auth_setup_s`), `expect`
+    /// selects the sender key the receiver expects: 0 the honest pkS, k>0 the k-th small-order
+    /// X25519 encoding (NIST suites: the recipient's own public key)
+    Forged { term: u8, expect: u8 },
 }
 
 #[derive(Clone, Debug, Serialize, Deserialize)]
@@ -46,7 +51,7 @@ fn check(case: &Case, obs: &mut Obs) -> Verdict {
     let auth = sess.mode & 2 != 0;
     let pskm = sess.mode & 1 != 0;
     match case.kind {
-        Impostor::OtherPair | Impostor::PublicHalfOnly | Impostor::Unauthenticated if !auth => return Verdict::skip("identity impostor outside an Auth mode"),
+        Impostor::OtherPair | Impostor::PublicHalfOnly | Impostor::Unauthenticated | Impostor::Forged { .. } if !auth => return Verdict::skip("identity impostor outside an Auth mode"),
         Impostor::PskBit(_) | Impostor::PskLength(_) | Impostor::PskOther if !pskm => return Verdict::skip("psk impostor outside a PSK mode"),
         _ => {}
     }
@@ -65,6 +70,9 @@ fn check(case: &Case, obs: &mut Obs) -> Verdict {
     };
     if let Err(e) = probe_agrees(rcv_h.as_mut(), &probe_h) {
         return Verdict::fail("C08/honest-sender-rejected", format!("the honest sender (holder of skS / the PSK) was not accepted: {} ({} mode {})", e, suite_.label(), sess.mode));
+    }
+    if let Impostor::Forged { term, expect } = case.kind {
+        return forged(case, sess, &keys, term, expect, obs);
     }
     // the impostor
     let (sk_i, pk_i) = r::derive_key_pair(suite_.kem, &case.ikm_i);
@@ -108,6 +116,7 @@ fn check(case: &Case, obs: &mut Obs) -> Verdict {
             }
             ms.psk = Bytes(p);
         }
+        Impostor::Forged { .. } => unreachable!(),
     }
     obs.nontrivial = matches!(case.kind, Impostor::PublicHalfOnly | Impostor::PskBit(_));
     let mut rng = ScriptRng::new(&sess.stream);
@@ -142,16 +151,72 @@ fn check(case: &Case, obs: &mut Obs) -> Verdict {
     }
 }
 
+/// The forged-transcript impostor: no library sender is involved, the reference model plays an
+/// attacker who knows pkR, the pkS the receiver expects, info and (AuthPsk) the PSK, but no skS.
+fn forged(case: &Case, sess: &Session, keys: &gen::Keys, term: u8, expect: u8, obs: &mut Obs) -> Verdict {
+    let suite_ = sess.suite;
+    let d = dsuite(sess);
+    let small = crate::corpus::small_order_14().unwrap_or_default();
+    let expect_pk: Vec<u8> = if expect == 0 {
+        keys.pk_s.clone()
+    } else if suite_.kem == KemId::X25519 && !small.is_empty() {
+        small[(expect as usize - 1) % small.len()].to_vec()
+    } else {
+        keys.pk_r.clone()
+    };
+    obs.label(format!("forged-term:{}", term % 5));
+    obs.label(if expect == 0 { "forged-expect:honest-pkS" } else if suite_.kem == KemId::X25519 { "forged-expect:small-order" } else { "forged-expect:own-pkR" });
+    obs.nontrivial = true;
+    let (sk_e, _) = r::derive_key_pair(suite_.kem, &case.ikm_i);
+    let mut si = sess.sender_in(keys, &[]);
+    si.pk_s = &expect_pk;
+    let Some((enc, ks)) = r::forged_auth_setup_s(&si, &sk_e, term % 5) else {
+        return Verdict::skip("forged transcript not computable");
+    };
+    let mut probe = Probe { cts: Vec::new(), exports: Vec::new() };
+    if suite_.aead.sealing() {
+        for (i, (pt, aad)) in [(&b"probe message zero"[..], &b"aad-0"[..]), (&b""[..], &b""[..]), (&b"third probe message, a little longer than a block....."[..], &b"x"[..])].into_iter().enumerate() {
+            probe.cts.push((ks.seal(i as u64, aad, pt), aad.to_vec(), pt.to_vec()));
+        }
+    }
+    for (ctx, len) in [(&b""[..], 32usize), (&b"exporter context"[..], 16usize), (&b"k"[..], 64usize)] {
+        if let Some(v) = ks.export(ctx, len) {
+            probe.exports.push((ctx.to_vec(), len, v));
+        }
+    }
+    let mut mr = sess.mode_r(keys);
+    mr.pk_s = Bytes(expect_pk.clone());
+    let mut rcv = match d.setup_receiver(&mr, &keys.sk_r, &enc, &sess.info) {
+        Ok(r) => r,
+        Err(Fail::Hpke(_)) => {
+            obs.label("receiver-setup-fails");
+            return Verdict::Pass;
+        }
+        Err(f) => return construct_skip("receiver", &f),
+    };
+    obs.inner_checks += (probe.cts.len() * 2 + probe.exports.len()) as u64;
+    match probe_disjoint(rcv.as_mut(), &probe, suite_.aead.sealing()) {
+        Ok(()) => Verdict::Pass,
+        Err(shared) => Verdict::fail(
+            "C08/impostor-accepted/Forged",
+            format!(
+                "{} mode {}: a transcript built without any sender private key (identity term kind {}, receiver expecting pkS={}) is accepted by the receiver: {}",
+                suite_.label(), sess.mode, term % 5, crate::util::hex(&expect_pk), shared
+            ),
+        ),
+    }
+}
+
 impl Property for P {
     type Case = Case;
     fn id(&self) -> &'static str {
         "C08"
     }
     fn rule(&self) -> String {
-        "Generated: sessions over 4 KEMs x any KDF/AEAD in {Auth, AuthPsk} (identity impostors) and {Psk, AuthPsk} (PSK possession) with impostor kinds: a different key pair; public half only (OpModeS::Auth((skI, pkS)), a real call since the API takes the pair unchecked); sender in the non-authenticated sibling mode; psk differing in one bit / in length / entirely, same psk_id. \
-         Swept: 4 KEMs x applicable modes x 6 impostor kinds. \
+        "Generated: sessions over 4 KEMs x any KDF/AEAD in {Auth, AuthPsk} (identity impostors) and {Psk, AuthPsk} (PSK possession) with impostor kinds: a different key pair; public half only (OpModeS::Auth((skI, pkS)), a real call since the API takes the pair unchecked); sender in the non-authenticated sibling mode; psk differing in one bit / in length / entirely, same psk_id; forged transcripts computed by the reference model from public values and an ephemeral key only (identity DH term omitted / Ndh zero bytes / omitted together with pkS in kem_context / DH(skE, pkS) / the ephemeral DH repeated) against a receiver expecting the honest pkS, each of the 14 small-order X25519 encodings, or (NIST) its own public key. \
+         Swept: 4 KEMs x applicable modes x 6 impostor kinds; 5 forged-term kinds x expected keys x {Auth, AuthPsk} x 4 KEMs x {sealing, export-only}. \
          Oracle: positive control (honest sender accepted, exports equal); for the impostor the receiver opens none of 3 ciphertexts and all 3 exports differ (or a setup fails). \
-         Non-trivial: the public-half-only impostor and one-bit PSK differences."
+         Non-trivial: the public-half-only impostor, one-bit PSK differences and forged transcripts."
             .into()
     }
     fn assumptions(&self) -> Vec<String> {
@@ -165,11 +230,12 @@ impl Property for P {
             3 => any::<u16>().prop_map(Impostor::PskBit),
             1 => any::<bool>().prop_map(Impostor::PskLength),
             1 => Just(Impostor::PskOther),
+            3 => (0u8..5, prop_oneof![2 => Just(0u8), 3 => 1u8..=14]).prop_map(|(term, expect)| Impostor::Forged { term, expect }),
         ];
         (gen::session_any(), gen::ikm(), kind, any::<bool>())
             .prop_map(|(mut sess, ikm_i, kind, both)| {
                 sess.mode = match kind {
-                    Impostor::OtherPair | Impostor::PublicHalfOnly | Impostor::Unauthenticated => {
+                    Impostor::OtherPair | Impostor::PublicHalfOnly | Impostor::Unauthenticated | Impostor::Forged { .. } => {
                         if both {
                             3
                         } else {
@@ -207,7 +273,23 @@ impl Property for P {
                 }
             }
         }
-        vec![("kem_x_mode_x_impostor_cells".into(), cells)]
+        // forged transcripts: every identity-term kind x every expected key (X25519: the 14 small-order
+        // encodings and the honest key; NIST: the honest key and the recipient's own) x Auth/AuthPsk
+        let mut forged = Vec::new();
+        for kem in KemId::ALL {
+            for (kdf, aead) in [(KdfId::Sha256, AeadId::ChaCha), (KdfId::Sha512, AeadId::Export)] {
+                let s = Suite { kem, kdf, aead };
+                for mode in [2u8, 3] {
+                    for term in 0..5u8 {
+                        let expects: Vec<u8> = if kem == KemId::X25519 { (0..=14).collect() } else { vec![0, 1] };
+                        for expect in expects {
+                            forged.push(Case { sess: gen::cell_session(s, mode, 8), ikm_i: Bytes(gen::fill(kem.nsk(), 5, 89)), kind: Impostor::Forged { term, expect } });
+                        }
+                    }
+                }
+            }
+        }
+        vec![("kem_x_mode_x_impostor_cells".into(), cells), ("forged_transcripts_x_expected_sender_key".into(), forged)]
     }
     fn check(&self, case: &Case, obs: &mut Obs) -> Verdict {
         check(case, obs)
